@@ -372,6 +372,12 @@ MORE_T = [alg("MC_MoreAlgs.tla", "MC_MoreAlgs_%s.cfg" % c, workers=10) for c in 
 for _p in ("C01", "C02", "C03", "C06", "C12", "C13"):
     PROPS[_p]["mc"]["quick"] = PROPS[_p]["mc"]["quick"] + MORE_Q
     PROPS[_p]["mc"]["thorough"] = PROPS[_p]["mc"]["thorough"] + (MORE_T if _p in ("C02", "C13") else MORE_Q)
+# the general-radix chunked parser and the signed wrapper (alg/ParseAlgs): every digit string up to 5..7 symbols incl. an invalid one
+PARSE_Q = [alg("MC_ParseAlgs.tla", "MC_ParseAlgs_8_1.cfg", workers=6), alg("MC_ParseAlgs.tla", "MC_ParseAlgs_probe_NoLooseKind.cfg", expect_violation="NoLooseKind", workers=4)]
+PARSE_T = [alg("MC_ParseAlgs.tla", "MC_ParseAlgs_%s.cfg" % c, workers=8) for c in ("8_1", "4_2", "3_3")] + \
+          [alg("MC_ParseAlgs.tla", "MC_ParseAlgs_probe_%s.cfg" % v, expect_violation=v, workers=4) for v in ("NoCarryPath", "NoAddOverflow", "NoLooseKind", "NoMinMagnitude")]
+PROPS["C10"]["mc"]["quick"] = PROPS["C10"]["mc"]["quick"] + PARSE_Q
+PROPS["C10"]["mc"]["thorough"] = PROPS["C10"]["mc"]["thorough"] + PARSE_T
 
 KNOWN_PREDICATES = {}
 
@@ -579,7 +585,7 @@ _EXTRA = {
  "C06": " alg/MoreAlgs checks the counting loops with their early exits, is_power_of_two, checked_next_power_of_two, bit/set_bit, swap_bytes and reverse_bits for every value at toy sizes; set_bit acts on real registers in machine behaviours.",
  "C07": " Apalache decides the MSD-first comparison loops (unsigned and signed top digit) for every digit value at the real digit bases, N = 1..4.",
  "C08": " Power steps (wrapping, checked, saturating, operator) are replayed inside TLC-simulated machine behaviours.",
- "C10": " Print-then-parse steps (every radix) are replayed inside TLC-simulated machine behaviours.",
+ "C10": " alg/ParseAlgs transcribes the general-radix chunked parser (first short chunk, multiply by radix^power with carry detection, checked_add) and BInt's sign wrapper and checks them against the grammar for every digit string up to 5..7 symbols including an invalid one, both digit orders, radices 3..15, with every error path witnessed. Print-then-parse steps (every radix) are replayed inside TLC-simulated machine behaviours.",
  "C11": " Print-then-parse and digits-then-parse round trips in every radix 2..256 are steps of TLC-simulated machine behaviours.",
  "C12": " alg/MoreAlgs checks the per-digit binary/hex text with zero-padded interior digits against the numeral of the value for every value at toy sizes.",
  "C13": " alg/MoreAlgs transcribes TryFrom<bnum> for primitives (digit wider than, and narrower than, the primitive; signed padding test) and the four BTryFrom bit-count tests and checks them against representability for every value and target width at toy sizes.",
